@@ -129,9 +129,13 @@ def worker(args):
                     val = float(Fr(c["value"]))
                 elif c["form"] == "vec":
                     val = ca.DM([float(Fr(v)) for v in c["value"]]) if n > 1 else float(Fr(c["value"][0]))
+                    if n > 1 and c["slot"] % 2 == 0:
+                        val = ca.sparsify(val)          # a DM whose zeros are structural is the same guess
                 elif c["form"] == "cols":
                     arr = np.array([[float(Fr(v)) for v in col] for col in c["value"]]).T   # n x ncols
                     val = arr[0] if n == 1 else arr
+                    if n > 1 and c["slot"] % 2 == 0:
+                        val = ca.sparsify(ca.DM(arr))
                 else:
                     es = [B.ex(e) for e in c["value"]]
                     val = ca.vertcat(*es) if n > 1 else es[0]
